@@ -203,3 +203,34 @@ func H18_resume() {
 	}
 	vrtReach("C18.resume")
 }
+
+// P9: the in-process API used from several goroutines at once: two
+// Server.Publish calls, a Server.Subscribe and a Server.Unsubscribe run
+// concurrently with a connection's publish.
+func H18_inproc_api() {
+	b := vrtBroker("mockSuccess")
+	s, _ := b.connect(vrtConnectPkt([]byte("s"), true))
+	vrtExchange(s, &specPkt{Typ: specSUBSCRIBE, ID: 1, Topics: [][]byte{[]byte("t")}, QoS: []byte{1}})
+	p, _ := b.connect(vrtConnectPkt([]byte("p"), true))
+	in1, in2 := vrtNewInproc(), vrtNewInproc()
+	b.svr.Subscribe("t", 1, &in1.fn)
+	mk := func(topic, payload string, retain bool) *message.PublishMessage {
+		m := message.NewPublishMessage()
+		m.SetTopic([]byte(topic))
+		m.SetPayload([]byte(payload))
+		m.SetQoS(1)
+		m.SetRetain(retain)
+		return m
+	}
+	m1, m2 := mk("t", "1", false), mk("u", "2", vrtBool("retain"))
+	vrtGo(func() { b.svr.Publish(m1) })
+	vrtGo(func() { b.svr.Publish(m2) })
+	vrtGo(func() { b.svr.Subscribe("u", 0, &in2.fn) })
+	vrtGo(func() { b.svr.Unsubscribe("t", &in1.fn) })
+	p.peerSend(specEncode(&specPkt{Typ: specPUBLISH, Flags: 2, ID: 1, Topic: []byte("t"), Payload: []byte("3")}))
+	vrtJoin()
+	vrtQuiesce()
+	_, ok := vrtParse(s.peerTake())
+	vrtAssert("C18.stream_wellformed", ok)
+	vrtReach("C18.inproc_api")
+}
